@@ -428,8 +428,14 @@ def ob_regen_filelist():
 
         class AdvSet(IOSet):
             def __iter__(s_): return iter(adversary(list(s_.d)))
-        first = be.get_regen_filelist()
         had = BKm.__dict__.get('set', None)
+        if concrete(): BKm.set = IOSet          # the reference order is the insertion order in both modes (natively a real set would follow the hash seed)
+        try:
+            first = be.get_regen_filelist()
+        finally:
+            if concrete():
+                if had is None: del BKm.set
+                else: BKm.set = had
         if concrete(): BKm.set = AdvSet
         else:
             from symx import instr
